@@ -59,6 +59,16 @@ class PairAnalysis:
         self.returns_fresh = False
         # local pointers eligible as heap holders
         self.ptr_locals = {n for n, t in f.ltypes.items() if "*" in (t or "") and not n.startswith("_")}
+        # a pointer parameter that the function re-points at a block it obtains itself holds that block like a local does
+        # (basis = dbl_QSget_basis (p_dbl) in QSexact_verify): the caller never sees the new value
+        self.repointed_params = set()
+        for b_, i_, e_ in f.elements():
+            if e_[0] == "A" and e_[1][1] == "=" and is_var(e_[1][2]) and isinstance(strip(e_[1][2])[1], str) and strip(e_[1][2])[1].startswith("p"):
+                k_ = int(strip(e_[1][2])[1][1:])
+                if k_ < len(f.params) and "*" in f.params[k_][1] and not self._mentions(e_[1][3], strip(e_[1][2])[2]) and any(
+                        nd[0] == "c" and (callee(nd) in ALLOC_CALLS or callee(nd) in self.FRESH) for nd in walk(e_[1][3]) if isinstance(nd, list) and nd):
+                    self.repointed_params.add(strip(e_[1][2])[2])
+        self.ptr_locals |= self.repointed_params
 
     def xfer(self, b, i, e, st):
         r0 = self._xfer(b, i, e, st)
@@ -147,10 +157,10 @@ class PairAnalysis:
                 rn = self._holder(r)
                 if rn and ("h:" + rn) in out:
                     lp = apath(lhs)
-                    if not (is_var(l, kind="l")) or fields_of(lp[2]) or "*" in lp[2] or "[]" in lp[2]:
+                    if not (is_var(l, kind="l") or (is_var(l) and l[2] in self.repointed_params)) or fields_of(lp[2]) or "*" in lp[2] or "[]" in lp[2]:
                         out.discard("h:" + rn)
                         changed = True
-                    elif is_var(l, kind="l") and l[2] in self.ptr_locals and l[2] != rn:
+                    elif is_var(l) and l[2] in self.ptr_locals and l[2] != rn:
                         # a second local now names the same block: the block stays one resource, registered under the
                         # name through which this function releases it (or the original name if neither is released)
                         if l[2] in self.released_names and rn not in self.released_names:
@@ -158,7 +168,7 @@ class PairAnalysis:
                             out.add("h:" + l[2])
                             self.init_sites.setdefault("h:" + l[2], self.init_sites.get("h:" + rn, e[2]))
                             changed = True
-                if is_var(l, kind="l") and l[2] in self.ptr_locals:
+                if is_var(l) and l[2] in self.ptr_locals:
                     nm = l[2]
                     if ("h:" + nm) in out and const_of(r) == 0 and nm in self.copied_to and ("h:" + self.copied_to[nm]) not in out \
                             and not any(x in m for m in macs for x in FREE_MACROS):
@@ -195,7 +205,7 @@ class PairAnalysis:
         t = strip(t)
         if is_var(t, kind="l") and t[2] in getattr(self, "tmp_alias", {}):
             return self.tmp_alias[t[2]]
-        if is_var(t, kind="l") and t[2] in self.ptr_locals:
+        if is_var(t) and t[2] in self.ptr_locals:
             return t[2]
         if isinstance(t, list) and t and t[0] == "b" and t[1] in ("+", "-") and is_var(t[2], kind="l"):
             return strip(t[2])[2] if strip(t[2])[2] in self.ptr_locals else None
